@@ -43,6 +43,7 @@ def run(res):
     if code != 0:
         raise Broken("harness txn failed: " + err[-500:])
     sums, dumps, adumps, tids, flags = [], {}, {}, [], {}
+    frombytes = []
     for line in out.split("\n"):
         p = line.split()
         if not p:
@@ -55,6 +56,8 @@ def run(res):
             adumps[int(p[1])] = p[2]
         elif p[0] == "tid":
             tids.append((int(p[1]), int(p[2]), p[3]))
+        elif p[0] == "frombytes":
+            frombytes.append(p[1])
         else:
             flags[p[0]] = p[1:]
     nblocks = int(flags["blocks"][0])
@@ -117,6 +120,13 @@ def run(res):
     # property checker on the implementation's observations
     if flags["len_ok"][0] != "1":
         res.violations.append({"property": PROP, "kind": "tid-not-8-bytes", "how": "harness txn %d %d" % (B, M)})
+    want = "".join("1" if n == 8 else "0" for n in range(17))
+    wrong = [fb for fb in frombytes if fb != want]
+    res.coverage["from_bytes_length_sweeps"] = len(frombytes)
+    if wrong or not frombytes:
+        res.violations.append({"property": PROP, "kind": "TransactionID::from_bytes accepts a byte string that is not exactly 8 bytes long "
+                               "(c19_from_bytes_exactly_8)", "accepted_by_length_0_to_16": wrong[:1],
+                               "how": "harness txn %d %d: lines `frombytes`, one flag per length 0..16 of a real id truncated / zero-extended" % (B, M)})
     if flags["first_m_distinct"][0] != "1":
         i, j = flags.get("first_repeat", ["?", "?"])
         res.violations.append({"property": PROP, "kind": "message-id-repeated-before-2^24",
@@ -139,7 +149,55 @@ def run(res):
                                 {"summary_blocks": bad_sums[:5], "first3": mid_start_ok, "later": bad_later}))
     if not aid_start_ok:
         res.broken_ties.append(("correspondence AIDGenerator: model draws differ from observed", {}))
+    if not res.violations:
+        node_part(res)
     return res.finish("proof", LEVEL_NOTE)
+
+
+def node_part(res):
+    """Ids as the running node uses them: over whole simulated runs (bootstrap with silent / answering contacts and repeated
+    re-bootstrap attempts, refresh rounds, searches) every query the node sends carries an 8-byte transaction id that it has not
+    sent to the same address before in that run (one id towards several distinct addresses is the deliberate sharing of a
+    bootstrap round)."""
+    import nodegen
+    import nodeprop
+    vlib.ensure_model(nodeprop.RUN_TARGETS)
+
+    def gen(rng, consts, i):
+        if i % 2 == 0:
+            return nodegen.gen_bootstrap(rng, consts)
+        return nodegen.gen_lookup(rng, consts, hostile=False, faults=(i % 4 == 1), early=False)
+
+    def checker(sc, meta, log, tr):
+        naddr = sc.node["addr"].script()
+        seen = {}
+        out = []
+        for (t, kind, body) in log:
+            if kind != "WIRE":
+                continue
+            head, _, rendered = body.partition(" | ")
+            hp = head.split()
+            if hp[0] != naddr or " q=" not in " " + rendered:
+                continue
+            tid = rendered.split(" ")[0][2:]
+            if len(tid) != 16:
+                out.append({"kind": "a query was sent with a transaction id that is not 8 bytes long", "time": t, "tid": tid})
+            elif (tid, hp[1]) in seen:
+                # (the first bootstrap round deliberately uses one id towards several DISTINCT addresses)
+                out.append({"kind": "the node sent the same transaction id to the same address twice within one run", "tid": tid,
+                            "first_used": seen[(tid, hp[1])], "again_at": t, "to": hp[1], "query": rendered[:120]})
+            else:
+                seen[(tid, hp[1])] = t
+            if out:
+                break
+        return out
+
+    nodeprop.explore(
+        res, PROP, gen, checker, 12, 200,
+        "bootstrap scenarios (contacts answering / silent / erroring, outages, repeated re-bootstrap attempts with back-off) and "
+        "search scenarios; checker: every query datagram the real node sent in a run has an 8-byte transaction id never sent "
+        "to the same address before in that run",
+        [], part="node_part")
 
 
 def replay(path):
